@@ -349,6 +349,10 @@ def check(prog, rep):
     sweep(prog, rep)
     union_rule(prog, rep)
     rep.note("period_union clears `data` on input events it passes through (E2 sees writes below events1/events2); the property claims input preservation for filter_period_intersect only")
+    # the transform's own copies (deepcopy of events) separate its output from its input only if Event keeps the default copy protocol
+    from ..rules_own import copy_protocol
+
+    copy_protocol(prog, rep)
 
 
 VARIANTS = [
